@@ -26,7 +26,7 @@ ASSUMPTIONS = ["each Acked::ack call is atomic with respect to other calls on th
                "the cursors_v1 table behaves as a finite map keyed by name and decode_cbor(encode_cbor(cursor)) = cursor"]
 TRUSTED = ["modelled not verified: SQLite cursor table, CBOR cursor encoding, tokio Semaphore (atomicity of one ack), BTreeMap"]
 RULE = ("node = random histories on a real Node (explicit ack policy, two topic streams, 1-4 published operations each, 3-8 calls of "
-        "StreamSubscription::ack incl. cross-topic ones; 6 quick / 40 thorough); quick: adv = all advance sequences of length <= 4 over 2 logs x heights {0,1,2} (1555), all 120 orders of 3 random 5-advance multisets over "
+        "StreamSubscription::ack incl. cross-topic ones; 6 quick / 40 thorough); quick: adv = all advance sequences of length <= 3 over 2 logs x heights {0,1,2} (259) and 400 random ones of length 4, all 120 orders of 3 random 5-advance multisets over "
         "3 authors x 3 logs, 200 random sequences (<= 40 advances, initial state, heights up to u32::MAX); ack = all sequences of length <= 2 over "
         "2 default-named topic streams x 2 authors x 2 topics x seq {0,1,2} (601) and 300 random histories (1-4 instances with default or custom, "
         "possibly shared names, 3 topics of which one is tracked by nobody, <= 14 acks). thorough: adv length <= 5 (9331) + 20 multisets x 120 orders "
@@ -98,9 +98,12 @@ def gen(tier, rng):
         yield _rand_node(rng)
     # adv: exhaustive short sequences over a 6-letter alphabet
     alpha = [[0, l, h] for l in (0, 1) for h in (0, 1, 2)]
-    for n in range(0, (4 if quick else 5) + 1):
+    for n in range(0, (3 if quick else 5) + 1):
         for xs in itertools.product(alpha, repeat=n):
             yield {"kind": "adv", "init": [], "xs": [list(x) for x in xs]}
+    if quick:
+        for _ in range(400):
+            yield {"kind": "adv", "init": [], "xs": [list(rng.choice(alpha)) for _ in range(4)]}
     # adv: all orders of some multisets
     for _ in range(3 if quick else 20):
         ms = [[rng.randrange(3), rng.randrange(3), rng.randrange(4)] for _ in range(5)]
